@@ -420,3 +420,34 @@ Fixpoint holders_empty (v : val) : bool :=
   | VP (Some v') => holders_empty v'
   | VT fs h => match h with [] => forallb holders_empty fs | _ => false end
   end.
+
+(* ---- shape conditions used by the round-trip theorem ---- *)
+(* the prior content of a slot has the shape of its type: a by-value struct slot holds a struct
+   value, recursively *)
+Fixpoint prior_ok (env : senv) (t : ty) (p : val) {struct p} : bool :=
+  match p with
+  | VT ps _ =>
+      match t with
+      | TStruct sid =>
+          match lookup_sd env sid with
+          | Some sd => fields_all (fun f p' => prior_ok env (fty f) p') (sfields sd) ps
+          | None => true
+          end
+      | _ => true
+      end
+  | _ => match t with TStruct _ => false | _ => true end
+  end.
+
+
+(* InitDefault assigns well-shaped values to by-value struct fields *)
+Definition init_ok (env : senv) : bool :=
+  forallb (fun sd =>
+             match sinit sd with
+             | Some asg =>
+                 forallb (fun iv : nat * val =>
+                            match nth_error (sfields sd) (fst iv) with
+                            | Some f => prior_ok env (fty f) (snd iv)
+                            | None => true
+                            end) asg
+             | None => true
+             end) env.
